@@ -8,6 +8,7 @@
   on every run), and `…_partial` proves the clause on an explicitly delimited fragment.
 -/
 import PgProofs.Typing
+import PgProofs.TypingExtend
 namespace Pg.Typing
 
 /-- Environment of the counterexamples: classes 0 ⊃ 1, every regex matches. -/
@@ -154,9 +155,6 @@ theorem C04_compat_F09c_repaired :
       (.union [.int none none F0, .str none F0] ⟨true, .missing, false⟩) = false := by
   rfl
 
-theorem Num.lt_ofInt (a b : Int) : Num.lt (Num.ofInt a) (Num.ofInt b) = decide (a < b) := by
-  simp [Num.lt, Num.ofInt]
-
 theorem Num.lt_ofInt' (a b : Int) : Num.lt ⟨a, 0⟩ (Num.ofInt b) = decide (a < b) := by
   simp [Num.lt, Num.ofInt]
 
@@ -219,6 +217,80 @@ theorem C04_compat_partial_int (env : Env) (lo hi olo ohi : Option Int) (f g : F
       simp [outOfRange_mono_int lo hi olo ohi _ hr (by simpa using hv)]
     | _ => simp at hv
 
+/-- **Compatibility is sound on `CompatOk`** (PgProofs/TypingCompat.lean), by mutual structural
+induction on the receiver: for every class environment with a transitive subclass relation, all
+specs `a`, `b` with `CompatOk a b` — `Any`, `Bool`, `Int` / `Float` ranges, `Str`, `Enum`, `List`,
+fixed and variable `Tuple`, schema-less `Dict`, `Object`, nested to any depth, any noneable /
+default flags — and every value.  `CompatOk` is the explicit decidable conjunction of the
+exclusions; each conjunct is forced by a finding (theorems `C04_compat_exclusion_*` below). -/
+theorem C04_compat_partial (env : Env) (ht : SubTrans env) (a b : Spec) (hok : CompatOk a b = true)
+    (hc : isCompatible env a b = true) (v : Val) (hv : accepts env b v = true) :
+    accepts env a v = true :=
+  compat_sound env ht a b hok hc v hv
+
+/-- `env0` has a transitive subclass relation. -/
+theorem env0_trans : SubTrans env0 := by
+  intro a b c h1 h2
+  simp only [env0, Bool.or_eq_true, Bool.and_eq_true, beq_iff_eq] at *
+  omega
+
+/-! Each conjunct of `CompatOk` is needed: at the witness of the finding the pair is compatible,
+the other spec accepts the value, the receiver rejects it, and exactly the named conjunct fails. -/
+
+/-- receiver not frozen (F09). -/
+theorem C04_compat_exclusion_F09 :
+    let a : Spec := .int none none ⟨false, .int 1, true⟩; let b : Spec := .int none none F0
+    CompatOk a b = false ∧ CompatOk (a.setFlags F0) b = true ∧ isCompatible env0 a b = true ∧
+      accepts env0 b (.int 2) = true ∧ accepts env0 a (.int 2) = false := by decide
+
+/-- other side not frozen (F40). -/
+theorem C04_compat_exclusion_F40 :
+    let a : Spec := .int none none F0; let b : Spec := .int none none ⟨false, .int 2, true⟩
+    CompatOk a b = false ∧ CompatOk a (b.setFlags F0) = true ∧ isCompatible env0 a b = true ∧
+      accepts env0 b (.float ⟨2, 0⟩) = true ∧ accepts env0 a (.float ⟨2, 0⟩) = false := by decide
+
+/-- a frozen other side also accepts `MISSING_VALUE` (returns its default), `Any()` does not. -/
+theorem C04_compat_exclusion_frozen_missing :
+    let a : Spec := .any ⟨true, .missing, false⟩; let b : Spec := .int none none ⟨false, .int 2, true⟩
+    CompatOk a b = false ∧ isCompatible env0 a b = true ∧
+      accepts env0 b .missing = true ∧ accepts env0 a .missing = false := by decide
+
+/-- `Enum`/`Enum`: same candidate value type (F41). -/
+theorem C04_compat_exclusion_F41 :
+    let a : Spec := .enum [.int 1, .int 2] F0; let b : Spec := .enum [.float ⟨1, 0⟩, .float ⟨2, 0⟩] F0
+    CompatOk a b = false ∧ enumVT [.int 1, .int 2] ≠ enumVT [.float ⟨1, 0⟩, .float ⟨2, 0⟩] ∧
+      isCompatible env0 a b = true ∧
+      accepts env0 b (.float ⟨1, 0⟩) = true ∧ accepts env0 a (.float ⟨1, 0⟩) = false := by decide
+
+/-- `List`/`List`: the receiver's `min_size` must not be larger (F09b). -/
+theorem C04_compat_exclusion_F09b :
+    let a : Spec := .list (.int none none F0) 2 none F0; let b : Spec := .list (.int none none F0) 0 none F0
+    CompatOk a b = false ∧ CompatOk (.list (.int none none F0) 0 none F0) b = true ∧
+      isCompatible env0 a b = true ∧
+      accepts env0 b (.list []) = true ∧ accepts env0 a (.list []) = false := by decide
+
+/-- `Str`: a receiver regex the other side does not have (regexes are outside the claim; here with
+an environment whose only regex matches nothing). -/
+theorem C04_compat_exclusion_regex :
+    let env : Env := ⟨fun a b => a == b, fun _ _ => false⟩
+    let a : Spec := .str (some 0) F0; let b : Spec := .str none F0
+    CompatOk a b = false ∧ CompatOk b b = true ∧ isCompatible env a b = true ∧
+      accepts env b (.str "x") = true ∧ accepts env a (.str "x") = false := by decide
+
+/-- An `Any` receiver must be noneable (`Any.__init__` enforces it). -/
+theorem C04_compat_exclusion_any :
+    let a : Spec := .any F0; let b : Spec := .int none none ⟨true, .missing, false⟩
+    CompatOk a b = false ∧ isCompatible env0 a b = true ∧
+      accepts env0 b .none = true ∧ accepts env0 a .none = false := by decide
+
+/-- `Dict` with schema (F42) and `Union` receivers (F43) are outside `CompatOk`. -/
+theorem C04_compat_exclusion_F42_F43 :
+    CompatOk (.dict (some [.mk (.const "x") (.int none none F0)]) ⟨false, .dict [("x", .missing)], false⟩)
+      (.dict (some [.mk (.const "x") (.int none none ⟨false, .int 1, false⟩)]) ⟨false, .dict [("x", .int 1)], false⟩)
+      = false ∧
+    CompatOk (.union [.float none none F0, .int none (some 1) F0] F0) (.float none none F0) = false := by
+  decide
+
 /-! ## 4. Extension only narrows -/
 
 def C04_extend_Full : Prop :=
@@ -247,6 +319,82 @@ theorem C04_extend_counterexample_F46 : ¬ C04_extend_Full := by
     (.tuple [.int none none F0] 2 (some 2) F0) (.tuple [.int 1]) (by rfl)).1 (by rfl)
   revert this; decide
 
+
+theorem ExtOk_flags (child base : Spec) (h : ExtOk child base = true) :
+    child.flags.frozen = false ∧ base.isUnion = false := by
+  cases child <;> simp only [ExtOk, Bool.and_eq_true, Bool.not_eq_true', Bool.false_eq_true] at h <;>
+    refine ⟨h.1, ?_⟩ <;> cases base <;> simp_all [Spec.isUnion]
+
+/-- For a non-frozen child the returned spec is the (mutated) child. -/
+theorem extend_eq_extendSelf (env : Env) (child base : Spec) (hok : ExtOk child base = true) :
+    extend env child base = extendSelf env child base := by
+  obtain ⟨hcf, hbu⟩ := ExtOk_flags child base hok
+  unfold extend
+  cases hpre : extendPre env child base with
+  | error e => cases child <;> rw [extendSelf, hpre]
+  | ok r =>
+    obtain ⟨_, hr⟩ := extendPre_ok env child base r hcf hbu hpre
+    split at hr
+    · subst hr; rfl
+    · rw [hr.1]
+
+/-- **Extension only narrows, on `ExtOk`** (PgProofs/TypingExtend.lean), by mutual structural
+induction on the child: if `child.extend(base)` succeeds with result `c'` then every value `c'`
+accepts is accepted by `base`, and `base.is_compatible(c')`.  Covered: non-frozen children of class
+`Any`, `Bool`, `Int` and `Float` ranges (all bound combinations, exact dyadic floats), `Str`,
+`Enum` over `Enum`, `List` (element, `min_size`, `max_size`), fixed / variable `Tuple` in all four
+combinations, schema-less `Dict`, `Object` (any transitive class environment), each over a base of
+the same class or a noneable `Any`, nested to any depth, any noneable / default flags. -/
+theorem C04_extend_partial (env : Env) (ht : SubTrans env) (child base c' : Spec)
+    (hok : ExtOk child base = true) (h : extend env child base = .ok c') :
+    (∀ v, accepts env c' v = true → accepts env base v = true) ∧ isCompatible env base c' = true := by
+  rw [extend_eq_extendSelf env child base hok] at h
+  obtain ⟨h1, h2⟩ := extend_ok env child base c' hok h
+  exact ⟨fun v hv => compat_sound env ht base c' h2 h1 v hv, h1⟩
+
+/-- The nested form (what `List` / `Tuple` / `Field.extend` keep of an element extension). -/
+theorem C04_extendSelf_partial (env : Env) (ht : SubTrans env) (child base c' : Spec)
+    (hok : ExtOk child base = true) (h : extendSelf env child base = .ok c') :
+    (∀ v, accepts env c' v = true → accepts env base v = true) ∧ isCompatible env base c' = true ∧
+      CompatOk base c' = true := by
+  obtain ⟨h1, h2⟩ := extend_ok env child base c' hok h
+  exact ⟨fun v hv => compat_sound env ht base c' h2 h1 v hv, h1, h2⟩
+
+/-! Each conjunct of `ExtOk` is needed. -/
+
+/-- child not frozen (F44). -/
+theorem C04_extend_exclusion_F44 :
+    let child : Spec := .int none none ⟨false, .int 5, true⟩; let base : Spec := .int none (some 3) F0
+    ExtOk child base = false ∧ ExtOk (child.setFlags F0) base = true ∧
+      (∃ c', extend env0 child base = .ok c' ∧ accepts env0 c' (.int 5) = true) ∧
+      accepts env0 base (.int 5) = false := by
+  refine ⟨by decide, by decide, ⟨_, rfl, by decide⟩, by decide⟩
+
+/-- `Enum` only over an `Enum` base (F45). -/
+theorem C04_extend_exclusion_F45 :
+    let child : Spec := .enum [.int 1, .int 2] ⟨false, .int 1, false⟩; let base : Spec := .int none none F0
+    ExtOk child base = false ∧
+      (∃ c', extend env0 child base = .ok c' ∧ isCompatible env0 base c' = false) := by
+  refine ⟨by decide, ⟨_, rfl, by decide⟩⟩
+
+/-- variable `Tuple` over variable `Tuple`: the merged sizes must not be equal (F46). -/
+theorem C04_extend_exclusion_F46 :
+    let child : Spec := .tuple [.int none none F0] 0 (some 2) F0
+    let base : Spec := .tuple [.int none none F0] 2 none F0
+    ExtOk child base = false ∧ ExtOk (.tuple [.int none none F0] 0 (some 3) F0) base = true ∧
+      (∃ c', extend env0 child base = .ok c' ∧ accepts env0 c' (.tuple [.int 1]) = true) ∧
+      accepts env0 base (.tuple [.int 1]) = false := by
+  refine ⟨by decide, by decide, ⟨_, rfl, by decide⟩, by decide⟩
+
+/-- `Str`: two different regexes (outside the claim): the child keeps its own. -/
+theorem C04_extend_exclusion_regex :
+    let env : Env := ⟨fun a b => a == b, fun r _ => r == 1⟩
+    let child : Spec := .str (some 1) F0; let base : Spec := .str (some 0) F0
+    ExtOk child base = false ∧
+      (∃ c', extend env child base = .ok c' ∧ accepts env c' (.str "x") = true) ∧
+      accepts env base (.str "x") = false := by
+  refine ⟨by decide, ⟨_, rfl, by decide⟩, by decide⟩
+
 /-! Non-vacuity of the hypotheses. -/
 example : frag (.list (.tuple [.int (some 0) (some 3) F0, .str none ⟨true, .none, false⟩] 2 (some 2) F0) 1 none F0) = true := by rfl
 example : apply env0 (.list (.float (some ⟨1, 1⟩) none F0) 1 none F0) false (.list [.int 1]) = .ok (.list [.float ⟨1, 0⟩]) := by rfl
@@ -254,5 +402,31 @@ example : isCompatible env0 (.int (some 0) none F0) (.int (some 1) (some 5) F0) 
 example : accepts env0 (.int (some 1) (some 5) F0) (.int 3) = true := by rfl
 example : ∃ s', setDefault env0 (.float none none F0) (.int 1) = .ok s' := ⟨_, rfl⟩
 example : extend env0 (.int (some 1) none F0) (.int (some 0) (some 9) F0) = .ok (.int (some 1) (some 9) F0) := by rfl
+
+
+/-! Non-vacuity of `C04_compat_partial` / `C04_extend_partial`: nested witnesses inside the classes,
+with the conclusion instantiated. -/
+def exA : Spec := .list (.tuple [.float (some ⟨1, 1⟩) none ⟨true, .missing, false⟩, .obj 0 F0] 2 (some 2) F0) 0 (some 5) F0
+def exB : Spec := .list (.tuple [.float (some ⟨3, 2⟩) (some ⟨9, 0⟩) F0, .obj 1 F0] 2 (some 2) F0) 1 (some 3) F0
+example : CompatOk exA exB = true ∧ isCompatible env0 exA exB = true := by decide
+example : accepts env0 exB (.list [.tuple [.int 2, .obj 1 7 false]]) = true := by decide
+example : accepts env0 exA (.list [.tuple [.int 2, .obj 1 7 false]]) = true :=
+  C04_compat_partial env0 env0_trans exA exB (by decide) (by decide) _ (by decide)
+example : CompatOk (.enum [.int 1, .int 2, .int 3] F0) (.enum [.bool true, .int 2] F0) = true ∧
+    isCompatible env0 (.enum [.int 1, .int 2, .int 3] F0) (.enum [.bool true, .int 2] F0) = true := by decide
+example : CompatOk (.tuple [.int none none F0] 1 none F0) (.tuple [.int (some 0) none F0, .int (some 5) (some 6) F0] 2 (some 2) F0) = true ∧
+    isCompatible env0 (.tuple [.int none none F0] 1 none F0) (.tuple [.int (some 0) none F0, .int (some 5) (some 6) F0] 2 (some 2) F0) = true := by decide
+
+def exChild : Spec := .list (.tuple [.float (some ⟨3, 2⟩) none F0] 0 (some 4) F0) 2 none ⟨false, .list [], false⟩
+def exBase : Spec := .list (.tuple [.float (some ⟨1, 1⟩) (some ⟨9, 0⟩) ⟨true, .missing, false⟩] 1 none F0) 1 (some 3) ⟨true, .missing, false⟩
+example : ExtOk exChild exBase = true := by decide
+example : extend env0 exChild exBase =
+    .ok (.list (.tuple [.float (some ⟨3, 2⟩) (some ⟨9, 0⟩) F0] 1 (some 4) F0) 2 (some 3) ⟨false, .list [], false⟩) := by rfl
+example : ExtOk (.tuple [.int (some 1) none F0, .int none (some 9) F0] 2 (some 2) F0) (.tuple [.int none none ⟨true, .missing, false⟩] 1 (some 2) F0) = true ∧
+    isOk (extend env0 (.tuple [.int (some 1) none F0, .int none (some 9) F0] 2 (some 2) F0) (.tuple [.int none none ⟨true, .missing, false⟩] 1 (some 2) F0)) = true := by decide
+example : ExtOk (.enum [.int 1] F0) (.enum [.int 1, .bool false] F0) = true ∧
+    isOk (extend env0 (.enum [.int 1] F0) (.enum [.int 1, .bool false] F0)) = true := by decide
+example : ExtOk (.obj 1 F0) (.obj 0 ⟨true, .missing, false⟩) = true ∧
+    isOk (extend env0 (.obj 1 F0) (.obj 0 ⟨true, .missing, false⟩)) = true := by decide
 
 end Pg.Typing
